@@ -528,6 +528,37 @@ where
     }
 }
 
+// ---- try_fold ---------------------------------------------------------------------------
+
+pub struct TryFold<I, ID, F> {
+    pub(crate) base: I,
+    pub(crate) id: Arc<ID>,
+    pub(crate) f: Arc<F>,
+}
+impl<I, ID, F, T, R> ParallelIterator for TryFold<I, ID, F>
+where
+    I: ParallelIterator,
+    ID: Fn() -> T + Sync + Send,
+    F: Fn(T, I::Item) -> R + Sync + Send,
+    R: TryLike<Output = T> + Send,
+    T: Send,
+{
+    type Item = R;
+    type Seq = std::iter::Once<R>;
+    forward_split!(TryFold {} ; arcs { id, f } ; clones {});
+    fn sim_into_seq(self) -> Self::Seq {
+        let f = self.f;
+        let mut acc = (self.id)();
+        for x in self.base.sim_into_seq() {
+            match f(acc, x).branch() {
+                Ok(a) => acc = a,
+                Err(e) => return std::iter::once(e),
+            }
+        }
+        std::iter::once(R::from_output(acc))
+    }
+}
+
 // ---- while_some ---------------------------------------------------------------------------
 
 pub struct WhileSome<I> {
